@@ -244,6 +244,7 @@ fn check(prop: &PropDef, args: &Args) -> i32 {
     let mut classes: BTreeMap<String, u64> = BTreeMap::new();
     let mut disagreements = 0u64;
     let mut violations: Vec<J> = vec![];
+    let mut corr_only: Vec<J> = vec![];
     let mut known_seen: BTreeMap<String, String> = BTreeMap::new();
     let mut samples: Vec<J> = vec![];
     let mut unexplained = 0u64;
@@ -292,8 +293,10 @@ fn check(prop: &PropDef, args: &Args) -> i32 {
         if !failing_input {
             unexplained += 1;
         }
-        if violations.len() < 25 {
-            violations.push(json!({
+        // failing inputs are kept in preference to mere disagreements
+        let bucket = if failing_input { &mut violations } else { &mut corr_only };
+        if bucket.len() < 25 {
+            bucket.push(json!({
                 "case": c.model_line(i),
                 "kind": c.kind, "payload": c.payload, "src": c.src,
                 "impl": impl_ans[i], "model": model_ans[i],
@@ -303,14 +306,15 @@ fn check(prop: &PropDef, args: &Args) -> i32 {
             }));
         }
     }
+    violations.extend(corr_only.into_iter().take(15));
 
     for (i, why) in (prop.post)(&cases, &impl_ans) {
         if let Some(k) = known_match(&known, prop.id, &cases[i], &impl_ans[i]) {
             known_seen.entry(k.id.clone()).or_insert_with(|| k.what.clone());
             continue;
         }
-        if violations.len() < 25 {
-            violations.push(json!({
+        if violations.len() < 60 {
+            violations.insert(0, json!({
                 "case": cases[i].model_line(i), "kind": cases[i].kind, "payload": cases[i].payload, "src": cases[i].src,
                 "impl": impl_ans[i], "model": model_ans[i], "predicate_failure": why, "failing_input_found": true,
                 "from_corpus": i < n_corpus,
